@@ -8,7 +8,6 @@ import (
 	"database/sql"
 	"encoding/json"
 	"fmt"
-	ledgerstore "github.com/formancehq/ledger/internal/storage/ledger"
 	"sort"
 	"sync"
 	gotime "time"
@@ -146,7 +145,7 @@ type logFetcher struct {
 	key   string
 	// real-SQL runs: the store the REAL storage driver opened for the pipeline (real factory, real
 	// alone-in-bucket hint); its Logs().Paginate serves the pipeline, as internal/replication/store.go does
-	real *ledgerstore.Store
+	real replication.LogFetcher
 }
 
 func (f logFetcher) ListLogs(ctx context.Context, q common.PaginatedQuery[any]) (*paginate.Cursor[ledger.Log], error) {
@@ -167,7 +166,7 @@ func (f logFetcher) ListLogs(ctx context.Context, q common.PaginatedQuery[any]) 
 	}
 	if f.real != nil {
 		f.s.ww.r.w.probe("pipeline_logs_through_real_sql")
-		out, err := f.real.Logs().Paginate(sysSQL(ctx), q)
+		out, err := f.real.ListLogs(sysSQL(ctx), q)
 		return out, err
 	}
 	var out *paginate.Cursor[ledger.Log]
@@ -189,10 +188,10 @@ func (s *simReplStorage) OpenLedger(ctx context.Context, name string) (replicati
 	if s.fenced() {
 		return nil, nil, errSessionDead
 	}
-	if d := s.inc().realDriver; d != nil {
-		// as internal/replication/store.go:storageAdapter.OpenLedger: the real storage driver opens the ledger
-		// (no yield inside: the Manager holds its mutex here)
-		st, l, err := d.OpenLedger(sysSQL(ctx), name)
+	if d := s.inc().workerDriver; d != nil {
+		// the REAL internal/replication storage adapter opens the ledger (real storage driver of the worker
+		// process); no yield inside: the Manager holds its mutex here
+		st, l, err := replication.NewStorageAdapter(d, systemstore.New(s.inc().bunDB)).OpenLedger(sysSQL(ctx), name)
 		if err != nil {
 			return nil, nil, err
 		}
